@@ -163,6 +163,7 @@ fn cmd_core(a: &Args) -> i32 {
             break;
         }
     }
+    runner::count("sched.livelock_breaks", sched::LIVELOCK_BREAKS.load(std::sync::atomic::Ordering::Relaxed));
     runner::count("distinct_nontrivial", nontrivial_hashes.len() as u64);
     if nontrivial_hashes.len() <= 40_000 {
         let hs: Vec<String> = nontrivial_hashes.iter().map(|h| format!("{:x}", h)).collect();
